@@ -101,6 +101,11 @@ pub trait Prop: Sync {
     fn fixed_cases(&self) -> Vec<Self::Case> {
         vec![]
     }
+    /// Second shrinking stage (after the tape): structurally smaller variants of a failing case, each
+    /// differing by one deletion/simplification. Tried greedily; a variant is kept when it fails the same way.
+    fn shrink_candidates(&self, _c: &Self::Case) -> Vec<Self::Case> {
+        vec![]
+    }
 }
 
 #[derive(Clone, Debug)]
@@ -337,8 +342,9 @@ impl Ctx {
                     if let Some((k, _d)) = absorb(&mut st, c, o, &mut self.distinct) {
                         // shrink with proptest's value tree
                         let mut tree = trees.swap_remove(i);
-                        let steps = if std::env::var("PV_NO_SHRINK").is_ok() { 0 } else { params.shrink_steps };
+                        let steps = if std::env::var("PV_NO_SHRINK").map(|v| !v.is_empty()).unwrap_or(false) { 0 } else { params.shrink_steps };
                         let (bc, bk, bd, bt) = shrink(p, &mut tree, &k, steps);
+                        let (bc, bd) = if steps > 0 { shrink_structurally(p, bc, &bk, bd, params.shrink_steps * 25) } else { (bc, bd) };
                         failure = Some((bc, bk, bd, Some(bt)));
                         break 'outer;
                     }
@@ -425,7 +431,9 @@ impl Ctx {
     }
 
     pub fn write_evidence(&self) {
-        let dir = verif_root().join("evidence");
+        // PV_EVIDENCE_DIR: runs against deliberately broken trees (tools/try_mutant.sh) must not overwrite
+        // the evidence of the unchanged tree
+        let dir = std::env::var("PV_EVIDENCE_DIR").map(std::path::PathBuf::from).unwrap_or_else(|_| verif_root().join("evidence"));
         let _ = std::fs::create_dir_all(&dir);
         let path = dir.join(format!("{}.json", self.property_id));
         let _ = std::fs::write(
@@ -487,6 +495,54 @@ fn shrink<P: Prop, T: ValueTree<Value = Vec<u32>>>(
     (best_case, best_fail.0, best_fail.1, best_tape)
 }
 
+/// Greedy delta debugging on the case itself: keep any one-step smaller variant that still fails with `kind`.
+fn shrink_structurally<P: Prop>(p: &P, mut best: P::Case, kind: &str, mut detail: String, budget: usize) -> (P::Case, String) {
+    let mut spent = 0;
+    let mut start = 0usize;
+    let mut adopted_in_pass = false;
+    loop {
+        let cands = p.shrink_candidates(&best);
+        if cands.is_empty() {
+            break;
+        }
+        if start >= cands.len() {
+            if !adopted_in_pass {
+                break;
+            }
+            start = 0;
+            adopted_in_pass = false;
+            continue;
+        }
+        // judge the next candidates in parallel, adopt the first (in order) that still fails the same way,
+        // then go on from the same position in the new candidate list
+        let end = (start + 16).min(cands.len());
+        if spent >= budget {
+            break;
+        }
+        spent += end - start;
+        let outs: Vec<Outcome> = cands[start..end].par_iter().map(|c| p.judge(c)).collect();
+        let mut adopted = None;
+        for (k, o) in outs.into_iter().enumerate() {
+            if let Verdict::Fail(kd, d) = o.verdict {
+                if kd == kind {
+                    adopted = Some((k, d));
+                    break;
+                }
+            }
+        }
+        match adopted {
+            Some((k, d)) => {
+                best = cands[start + k].clone();
+                detail = d;
+                start += k;
+                adopted_in_pass = true;
+            }
+            None => start = end,
+        }
+    }
+    (best, detail)
+}
+
 /// Object-safe view used by the registry (run + replay).
 pub trait DynProp: Sync {
     fn dyn_name(&self) -> String;
@@ -504,4 +560,21 @@ impl<P: Prop> DynProp for P {
         let c: P::Case = serde_json::from_value(case.clone()).map_err(|e| format!("cannot decode case: {e}"))?;
         Ok(self.judge(&c))
     }
+}
+
+/// `shrink_candidates` for any case type with a `prog: Prog` field.
+#[macro_export]
+macro_rules! prog_shrink {
+    () => {
+        fn shrink_candidates(&self, c: &Self::Case) -> Vec<Self::Case> {
+            $crate::model::prog_candidates(&c.prog)
+                .into_iter()
+                .map(|p| {
+                    let mut n = c.clone();
+                    n.prog = p;
+                    n
+                })
+                .collect()
+        }
+    };
 }
